@@ -1,6 +1,6 @@
 """C07 (lattice family; see latfam.py)."""
-from . import latfam
+from . import latfam, util
 
-globals().update(latfam.module('C07', ['C07_double_is_closure', 'C07_join_upper_bound', 'C07_join_least', 'C07_join_is_concept_extent', 'C07_meet_extent_is_intersection', 'C07_meet_lower_bound', 'C07_meet_greatest', 'C07_nary_union', 'C07_nary_intersection', 'C07_nary_meet_closed', 'C07_order_from_join_meet'],
+globals().update(latfam.module('C07', util.theorems('C07'),
     'contexts as C03; all ordered pairs of concepts for lattices <=14 concepts (150 sampled pairs beyond) through join/meet, | and &, and the n-ary forms (identity of the returned member); n-ary with empty, single, repeated arguments (<=5); non-trivial = a pair whose union of extents is not an extent',
-    extra_targets=['Tie/Members.vo', 'Tie/Matrices.vo'], partial='final mapping lookup tied by correspondence until C03 completeness is proved'))
+    extra_targets=['Tie/Members.vo', 'Tie/Matrices.vo'], partial=''))
